@@ -28,6 +28,13 @@ ENGINES["vecsim"] = {
                + [("harness", "engines/vecsim/stmt.cpp", ["-DSTMT_KIND=%d" % k]) for k in range(12)],
 }
 
+WRAP_MALLOC = ["-Wl,--wrap=malloc,--wrap=calloc,--wrap=realloc,--wrap=free"]
+ENGINES["solversim"] = {
+    "sources": LIB + [("nosan", "sim/sched.cpp"), ("nosan", "sim/simalloc.cpp"),
+                      ("harness", "engines/solversim/solversim.cpp"), ("harness", "engines/solversim/steppers.cpp"), ("harness", "engines/solversim/ss_oracle.cpp")],
+    "ldflags": WRAP_MALLOC,
+}
+
 REAL_STUB_COMMON = {
     "real": ["every line of /repo/include and /repo/src that the engine links (compiled from the working tree)"],
     "simulated": [],
@@ -104,3 +111,41 @@ PROPS["C16"] = vec_prop("Every history (2-12 operations) is first run fault free
     [{"engine": "vecsim", "config": "asan", "runs": 4000, "deadline": 90}],
     [{"engine": "vecsim", "config": "asan", "runs": 200000, "deadline": 1500}],
     level="fault_enumeration")
+
+
+SOL_REAL_STUB = {
+    "real": ["src/SQuIDS.cpp, src/SUNalg.cpp and all headers, compiled from the working tree",
+             "GSL 2.7.1 ODE driver, controller, evolve loop and the six real steppers rk2 rk4 rkf45 rkck rk8pd msadams (wrapped, not replaced)",
+             "std::thread, thread-local storage, AddressSanitizer/UBSan runtime in the asan build"],
+    "simulated": ["the physics callbacks H0/HI/GammaRho/InteractionsRho/GammaScalar/InteractionsScalar/PreDerive (S5: seeded problems with closed-form solutions; every call logged)",
+                  "the gsl_odeiv2_step_type handed to Set_GSL_step (S6: wrapper that routes every right-hand-side evaluation through a checking proxy; or simstep, an explicit "
+                  "Runge-Kutta interpreter over 6 tableaux with 4 buffer-management modes)",
+                  "step rejections and retryable apply failures (injected, bounded)",
+                  "operator new/delete (S1) and malloc/calloc/realloc/free of GSL (S2, link-time --wrap) with seeded address reuse, so that consecutive ODE drivers receive recycled addresses"],
+}
+SOL_ASSUME = ["H0 is diagonal (documented precondition of the expectation-value formula)", "gsl_set_error_handler_off() is installed (the default GSL handler aborts before SQuIDS can look at a status)",
+              "term switches, stepper and tolerances change only between Evolve calls", "callbacks never throw", "closed-form comparison only when the predicted tolerance is <= 1e-3"]
+SOL_RULE = ("plans are generated from (VERIF_SEED, run index): nx 1-9, nsun 2-6, nrhos 1-3, nscalars 0-3, all 32 switch masks, grid linear/log/user; steppers rk2 rk4 rkf45 rkck rk8pd "
+            "(adaptive and fixed), msadams (adaptive), simstep (6 tableaux x 4 buffer modes x dydt_in on/off); operations evolve(dt>=0), switch toggle, stepper change, move "
+            "construction, move assignment (into a fresh or a used solver; old object destroyed or re-initialised), re-initialisation to another configuration, expectation "
+            "queries (8 overloads, x inside / at nodes / below / above the grid), a second solver of another dimension on the thread, rejected calls. %s distinct = hash of "
+            "(configuration, switch masks, stepper and mode per segment, number of distinct input buffers the right-hand side saw, operation kinds); non-trivial = at least one "
+            "numerical Evolve with >=2 right-hand-side evaluations on >=2 different input buffers, or a move")
+
+def sol_prop(extra, quick, thorough):
+    return {"level": "exploration", "rule": SOL_RULE % extra, "distinct_measure": "hash of configuration + per-segment stepper/mode/switches/buffer-count + operation kinds",
+            "real_vs_stub": SOL_REAL_STUB, "assumptions": SOL_ASSUME, "batches": {"quick": quick, "thorough": thorough}}
+
+PROPS["C04"] = sol_prop("Profile: 1-3 Evolve calls per run; every right-hand-side evaluation is compared with the dense documented equation at the stepper's (buffer, time) and "
+                        "the final state with the closed form.",
+    [{"engine": "solversim", "config": "asan", "runs": 2500, "deadline": 80}],
+    [{"engine": "solversim", "config": "asan", "runs": 100000, "deadline": 1500}, {"engine": "solversim", "config": "plain", "runs": 400000, "base": 100000, "deadline": 900}])
+PROPS["C05"] = sol_prop("Profile: histories of queries interleaved with Evolve, re-initialisation, moves and a second solver.",
+    [{"engine": "solversim", "config": "asan", "runs": 6000, "deadline": 80}],
+    [{"engine": "solversim", "config": "asan", "runs": 300000, "deadline": 1500}, {"engine": "solversim", "config": "plain", "runs": 1000000, "base": 300000, "deadline": 600}])
+PROPS["C10"] = sol_prop("Profile: up to 8 segments over the full operation alphabet.",
+    [{"engine": "solversim", "config": "asan", "runs": 2500, "deadline": 80}],
+    [{"engine": "solversim", "config": "asan", "runs": 100000, "deadline": 1500}, {"engine": "solversim", "config": "plain", "runs": 400000, "base": 100000, "deadline": 900}])
+PROPS["C15"]["batches"]["quick"].append({"engine": "solversim", "config": "asan", "runs": 1500, "deadline": 40, "prop": "C15"})
+PROPS["C15"]["batches"]["thorough"].append({"engine": "solversim", "config": "asan", "runs": 100000, "deadline": 900, "prop": "C15"})
+PROPS["C15"]["real_vs_stub"] = {"real": VEC_REAL_STUB["real"] + SOL_REAL_STUB["real"], "simulated": VEC_REAL_STUB["simulated"] + SOL_REAL_STUB["simulated"]}
